@@ -34,6 +34,11 @@ def baseline():
     return _BASE
 
 
+def baseline_qualnames():
+    p = os.path.join(os.path.dirname(os.path.abspath(__file__)), "baseline_defs.json")
+    return {rel: {q.split("#")[0] for q in qs} for rel, qs in json.load(open(p))["defs"].items()}
+
+
 def is_artefact(rel: str, fn, nested: bool = False) -> bool:
     """A private def (or, nested=True, any closure) that did not exist in the baseline tree (by simple name, per module)."""
     name = getattr(fn, "name", "")
@@ -459,24 +464,36 @@ def _tail_returns_only(body) -> bool:
                 rs |= tail(h.body)
         elif isinstance(last, ast.With):
             rs |= tail(last.body)
+        elif isinstance(last, (ast.For, ast.While)) and last.orelse:
+            rs |= tail(last.orelse)
         return rs
     return {id(r) for r in _returns(body)} <= tail(body)
 
 
 def _nest_guard_returns(stmts):
-    """`if c: ...; return X` followed by more statements  ->  `if c: ...; return X  else: <the rest>` (in place, recursively), so
-    that a callee written with guard clauses has its returns in tail position."""
-    for i, s in enumerate(stmts):
-        if isinstance(s, ast.If) and not s.orelse and s.body and isinstance(s.body[-1], ast.Return) and i + 1 < len(stmts):
-            s.orelse = stmts[i + 1:]
+    """Continuation pushing: an `if` that returns on some path and is followed by more statements gets those statements appended to
+    every branch that can complete normally (`if c: ...; return X` + rest -> `if c: ...; return X  else: rest`; a branch that falls
+    through gets its own copy of the rest), in place and recursively, so that a callee written with early returns has all its returns in
+    tail position."""
+    i = 0
+    while i < len(stmts):
+        s = stmts[i]
+        if isinstance(s, ast.If) and i + 1 < len(stmts) and _returns([s]):
+            rest = stmts[i + 1:]
             del stmts[i + 1:]
-            _nest_guard_returns(s.orelse)
-            break
+            first = True
+            for br in (s.body, s.orelse):
+                if not _always_leaves(br):
+                    br.extend(rest if first else copy.deepcopy(rest))
+                    first = False
+        i += 1
     for s in stmts:
         if isinstance(s, ast.If):
             _nest_guard_returns(s.body)
             if s.orelse:
                 _nest_guard_returns(s.orelse)
+        elif isinstance(s, (ast.For, ast.While)) and s.orelse:
+            _nest_guard_returns(s.orelse)
 
 
 def _replace_tail_returns(stmts, make):
@@ -497,6 +514,61 @@ def _replace_tail_returns(stmts, make):
             _replace_tail_returns(h.body, make)
     elif isinstance(last, ast.With):
         _replace_tail_returns(last.body, make)
+    elif isinstance(last, (ast.For, ast.While)) and last.orelse:
+        _replace_tail_returns(last.orelse, make)
+
+
+def _always_leaves(stmts) -> bool:
+    if not stmts:
+        return False
+    last = stmts[-1]
+    if isinstance(last, (ast.Return, ast.Raise, ast.Continue, ast.Break)):
+        return True
+    if isinstance(last, ast.If):
+        return _always_leaves(last.body) and _always_leaves(last.orelse)
+    if isinstance(last, ast.With):
+        return _always_leaves(last.body)
+    return False
+
+
+def _loop_returns(stmts, make):
+    """A search loop that returns from inside (`for x in it: if c: return A` ... `return B`), in a callee inlined as a statement:
+    the inner returns become `<make(A)>; break` and everything after the loop moves into the loop's `else:` clause (which runs exactly
+    when the loop was not left by `break`). Only for loops without breaks or an else of their own, returns not inside an inner loop."""
+    for i, s in enumerate(stmts):
+        if isinstance(s, ast.If):
+            _loop_returns(s.body, make)
+            _loop_returns(s.orelse, make)
+        if not isinstance(s, (ast.For, ast.While)) or s.orelse:
+            continue
+        inner = []
+
+        def scan(nodes, in_inner_loop):
+            for n in nodes:
+                if isinstance(n, (ast.FunctionDef, ast.Lambda, ast.ClassDef)):
+                    continue
+                if isinstance(n, ast.Return):
+                    inner.append((n, in_inner_loop))
+                elif isinstance(n, ast.Break) and not in_inner_loop:
+                    inner.append((n, "break"))
+                scan(list(ast.iter_child_nodes(n)), in_inner_loop or isinstance(n, (ast.For, ast.While)))
+        scan(s.body, False)
+        rets = [n for n, fl in inner if isinstance(n, ast.Return)]
+        if not rets or any(fl for n, fl in inner):
+            continue
+
+        class T(ast.NodeTransformer):
+            def visit_FunctionDef(t, n):
+                return n
+            visit_Lambda = visit_FunctionDef
+
+            def visit_Return(t, n):
+                return list(make(n)) + [_loc(ast.Break(), n)]
+        s.body = [x for st in s.body for x in (lambda r: r if isinstance(r, list) else [r])(T().visit(st))]
+        s.orelse = stmts[i + 1:] or [_loc(ast.Pass(), s)]
+        del stmts[i + 1:]
+        _loop_returns(s.orelse, make)
+        break
 
 
 def _still_called(fn, name) -> bool:
@@ -848,7 +920,13 @@ class Inliner:
             return _why(629)
         rets = _returns(body)
         if mode != "return" and rets and not _tail_returns_only(body):
+            if mode == "assign":
+                _tg = s.targets[0]
+                _loop_returns(body, lambda r: [_loc(ast.Assign(targets=[copy.deepcopy(_tg)], value=r.value if r.value is not None else ast.Constant(value=None)), r)])
+            else:
+                _loop_returns(body, lambda r: ([_loc(ast.Expr(value=r.value), r)] if r.value is not None and not isinstance(r.value, (ast.Constant, ast.Name)) else []))
             _nest_guard_returns(body)
+            rets = _returns(body)
         if mode == "return":
             # every `return` of the callee simply becomes a return of the caller, wherever it stands
             if not rets or not isinstance(body[-1], (ast.Return, ast.If, ast.Try, ast.With)):
